@@ -418,6 +418,11 @@ func (obj *DenseReal64Vector) UnmarshalJSON(data []byte) error {
   if err := json.Unmarshal(data, &r); err != nil {
     return err
   }
+  for i := 0; i < len(r); i++ {
+    if r[i] == nil {
+      return fmt.Errorf("invalid dense vector: element %d is null", i)
+    }
+  }
   *obj = nilDenseReal64Vector(len(r))
   for i := 0; i < len(r); i++ {
     (*obj)[i] = r[i]
